@@ -75,8 +75,7 @@ CHECKS = {
  'C05': dict(
    technique='Coq proof over the bilinear form of the give kernel as regenerated from NODE_APPLY_A_GIVE (translator T3; gen_form = model form): per-node symmetry (ring), per-node non-negativity (weighted Cauchy-Schwarz + 2x2 discriminant), summed over any node list; discriminant identity 4 arr att - art^2 = alpha^2 + K-matrix correspondence',
    text='For every grid and coefficient array: <A x,y> = <x,A y> on vectors vanishing on Dirichlet nodes, and <A x,x> >= 0 under the '
-        'inequalities proved for every invertible mapping. PARTIAL: strict definiteness is evaluated numerically (Rayleigh quotients of '
-        'the extracted matrices), and across the origin non-negativity is proved only for art(0,.)=0 (F9).',
+        'inequalities proved for every invertible mapping, and <A x,x> > 0 for every such x that is non-zero on the grid when art^2 < 4 arr att (alpha > 0): strict definiteness for every grid size by induction from the outer boundary inwards, for the model and for the give kernel regenerated from the source. PARTIAL: across the origin non-negativity / definiteness is proved only for art(0,.)=0 (F9); the line blocks of the smoothers are handled with C06.',
    note='Trusted: Coq kernel; R axioms; model tied by the K-matrix of C03 (the matrices the theorems are about are the ones compared).',
    design='5/C05'),
  'C02': dict(
